@@ -2,8 +2,8 @@ CONSTANTS
   MaxTS = 60
   MaxVal = 2
   Keys = {1}
-  Native = FALSE
-  MirrorDropsEmpty = TRUE
+  Native = TRUE
+  MirrorDropsEmpty = FALSE
   AppVals = {1, 2}
   MaxApp = 2
   MaxRemote = 1
@@ -11,9 +11,9 @@ CONSTANTS
   RetryCount = 2
   MaxCrash = 1
   AllowWindow = FALSE
-  StartStates = {"empty", "data+ownsnap"}
-  OtherAtStart = {FALSE}
-  OnlyOnce = FALSE
+  StartStates = {"empty", "data", "ownsnap", "data+ownsnap"}
+  OtherAtStart = {TRUE, FALSE}
+  OnlyOnce = TRUE
 SPECIFICATION Spec
 INVARIANTS TypeOK NoLocalLoss PublishedWhenIdle ReadyMeansLoaded ReadyMeansPublished ExitOnlyWhenDone
 PROPERTIES CommittedOnlyAfterStore LSNeverBackwards NoEchoUpload NoUploadBeforeOwnMerged BucketMonotone ReadyStable
